@@ -210,3 +210,13 @@ class Fold:
             ctx.assume(z3.Implies(k == 0, term == _lift(self.init(fenv, *params), None)))
             ctx.assume(z3.Implies(k > 0, term == _lift(self.step(fenv, prev, elv, km1, *params), None)))
         return term
+
+
+def isnone(x):
+    """`x is None` for a view: python None, a UnionView, or anything else"""
+    if x is None:
+        return z3.BoolVal(True) if z3 is not None else True
+    from .contract import UnionView
+    if isinstance(x, UnionView):
+        return x.is_none
+    return z3.BoolVal(False)
